@@ -734,6 +734,16 @@ def rule_p3(ctx):
     # read phase: inside the accessor loop under Accessor::ArrayAccess; write phase: inside the write-back loop under Assign::Array
     acc_sw = [b for b in region if (sb.switch_info(b) or (None, None, ""))[2] == "ast::Accessor"]
     asg_sw = [b for b in region if (sb.switch_info(b) or (None, None, ""))[2].endswith("::Assign")]
+    # the read phase is the loop over the accessors that records what was read (Assign::*); a loop that only evaluates the
+    # index expressions beforehand reads nothing
+    def records(sw):
+        lps = [l for l in sb.loops() if sw in l["body"]]
+        if not lps:
+            return True
+        lp = min(lps, key=lambda l: len(l["body"]))
+        return any(st["k"] == "assign" and st["rv"]["k"] == "aggregate" and (st["rv"].get("adt") or "").endswith("::Assign")
+                   for x in lp["body"] for st in sb.blocks[x]["stmts"])
+    acc_sw = [b for b in acc_sw if records(b)]
     if not acc_sw or not asg_sw:
         raise AnchorMissing("P3: VarAssign arm has no switch over Accessor / Assign (%d/%d)" % (len(acc_sw), len(asg_sw)))
     for phase, sws, variant in (("read phase", acc_sw, "ArrayAccess"), ("write-back phase", asg_sw, "Array")):
